@@ -26,9 +26,9 @@ type C14Case struct {
 	Rows    []any     `json:"rows"`
 	Where   *sq.E     `json:"where,omitempty"`
 	Items   []C14Item `json:"items"`
-	Order   []int     `json:"order"`            // release permutation over the gated calls (arrival index -> completion rank)
-	Tail    string    `json:"tail,omitempty"`   // "" | distinct | orderby (ASYNC column under DISTINCT / as ORDER BY key)
-	Imm     string    `json:"imm,omitempty"`    // immediate-function rejection case: the qualified call text
+	Order   []int     `json:"order"`          // release permutation over the gated calls (arrival index -> completion rank)
+	Tail    string    `json:"tail,omitempty"` // "" | distinct | orderby (ASYNC column under DISTINCT / as ORDER BY key)
+	Imm     string    `json:"imm,omitempty"`  // immediate-function rejection case: the qualified call text
 	Wrapped bool      `json:"wrapped,omitempty"`
 }
 
